@@ -104,3 +104,54 @@ def free_energy_registry():
 
 FREE_ENERGY_ASSUMPTION = ("assumed contract: FreeEnergy.__call__(T).veffValue is the free energy f(T) of the phase and "
                           "FreeEnergy.derivative(T, order=k).veffValue is its k-th derivative (CubicSpline.derivative)")
+
+
+# --------------------------------------------------------------------------- Hydrodynamics
+def eos_registry(extra_facts=True):
+    """Contract of Thermodynamics as seen by its callers: the reported EOS functions of each phase
+    are pure functions of T; w = e + p (C10: w.is-e-plus-p), de = d e/dT, dp = d p/dT (C10 lemmas)."""
+    reg = {}
+    for ph in PHASES:
+        s = thermo_spec(ph)
+
+        def facts(so, a, r, _s=s):
+            t = a[0]
+            return [Eq(_s["w"](t), _s["e"](t) + _s["p"](t))] if extra_facts else []
+        for name in ("p", "dp", "ddp", "e", "de", "w", "csq"):
+            reg[f"Thermodynamics.{name}{ph}T"] = pure_call(lambda so, t, _f=s[name]: _f(t), facts)
+    return reg
+
+
+EOS_ASSUMPTION = ("callee contract (proved in C10): Thermodynamics.{p,dp,ddp,e,de,w,csq}{High,Low}T are pure functions of T "
+                  "with w = e + p, de = de/dT, dp = dp/dT")
+
+
+def make_hydro(it=None):
+    th = SymObj("Thermodynamics", "thermodynamics", label="thermodynamics")
+    th.attrs["Tnucl"] = real("Tnucl")
+    for ph in PHASES:
+        fe = SymObj("FreeEnergy", "freeEnergy", label=f"freeEnergy{ph}")
+        fe.attrs["__phase__"] = ph
+        for e in ENDS:
+            fe.attrs[f"{e.lower()}PossibleTemperature"] = [real(f"T{e}{ph}T"), boolean(f"{e.lower()}IsGenuine{ph}")]
+        th.attrs[f"freeEnergy{ph}"] = fe
+    tpl = SymObj("HydrodynamicsTemplateModel", "hydrodynamicsTemplateModel", label="template")
+    for n in ("vJ", "vMin", "cb2", "cs2", "alN", "psiN"):
+        tpl.attrs[n] = real(f"template.{n}")
+    hy = SymObj("Hydrodynamics", "hydrodynamics", label="hydro")
+    hy.attrs.update(thermodynamics=th, template=tpl, Tnucl=real("Tnucl"), TMaxHydro=real("TMaxHydro"),
+                    TMinHydro=real("TMinHydro"), rtol=real("rtol"), atol=real("atol"), vJ=real("vJ"),
+                    vMin=real("vMin"), vBracketLow=sym.R(1, 1000), success=boolean("success0"),
+                    doesPhaseTraceLimitvmax=[boolean("limH0"), boolean("limL0")])
+    for ph in PHASES:
+        for e in ENDS:
+            hy.attrs[f"T{e}{ph}T"] = real(f"T{e}{ph}T")
+    return hy
+
+
+def gammaSq(v):
+    return 1 / (1 - v * v)
+
+
+def mu(xi, v):
+    return (xi - v) / (1 - xi * v)
